@@ -38,11 +38,13 @@ counter-posting goes to the destination account or to `Income:Unknown` / `Expens
 explicit state or, by default, nothing if the account is known and `!` otherwise. -/
 theorem C15_tree (t : Txn) (src : String) :
     let neg := t.amount.value.neg
-    let srcP : Posting := { account := src, clear := .uncleared, amount := some (shownAmount t t.amount),
-      balance := t.balance.map fun b => .amt ⟨b.value.neg, b.value.mant, b.value.scale, none⟩ b.commodity, metadata := [] }
-    let chargePs : List Posting := t.charges.map fun c =>
+    let srcP : Posting :=
+      { account := src, clear := .uncleared, amount := some (shownAmount t t.amount),
+        balance := t.balance.map (fun b => VExpr.amt ⟨b.value.neg, b.value.mant, b.value.scale, none⟩ b.commodity),
+        metadata := [] }
+    let chargePs : List Posting := t.charges.map (fun c =>
       { account := "Expenses:Commissions", clear := .uncleared, amount := some (shownAmount t c.amount),
-        balance := none, metadata := [.keyValue "Payee" (.text c.payee)] }
+        balance := none, metadata := [Metadata.keyValue "Payee" (MetaValue.text c.payee)] })
     let destP : Posting :=
       { account := t.destAccount.getD (if neg then "Expenses:Unknown" else "Income:Unknown"),
         clear := t.clearState.getD (if t.destAccount.isSome then .uncleared else .pending),
@@ -77,13 +79,15 @@ theorem C15_tree (t : Txn) (src : String) :
 
 /-- **`to_double_entry` cannot fail**: the "credit and debit both zero" branch is unreachable, because the
 two tests look at the sign *flag* (a zero amount is booked as a credit of `0`, a negative zero as a debit). -/
-theorem C15_never_err (t : Txn) (src : String) : ∃ tr, t.toDoubleEntry src = .ok tr :=
-  ⟨_, C15_tree t src⟩
+theorem C15_never_err (t : Txn) (src : String) : ∃ tr, t.toDoubleEntry src = .ok tr := by
+  have h := C15_tree t src
+  simp only at h
+  exact ⟨_, h⟩
 
 /-- **One transaction per statement record**: a list of records becomes a list of transactions of the same
 length, in the same order, each being the transaction of its record. -/
 theorem C15_one_per_record (ts : List Txn) (src : String) :
-    ∃ trs, ts.mapM (fun t => t.toDoubleEntry src) = Outcome.ok trs ∧ trs.length = ts.length ∧
+    ∃ trs, toDoubleEntries src ts = Outcome.ok trs ∧ trs.length = ts.length ∧
       ∀ i (h : i < ts.length) (h' : i < trs.length), ts[i].toDoubleEntry src = .ok trs[i] := by
   induction ts with
   | nil => exact ⟨[], rfl, rfl, by simp⟩
@@ -91,8 +95,7 @@ theorem C15_one_per_record (ts : List Txn) (src : String) :
     obtain ⟨trs, h1, h2, h3⟩ := ih
     obtain ⟨tr, htr⟩ := C15_never_err t src
     refine ⟨tr :: trs, ?_, by simp [h2], ?_⟩
-    · simp only [List.mapM_cons, htr, h1]
-      rfl
+    · simp only [toDoubleEntries, htr, h1]
     · intro i h h'
       cases i with
       | zero => simpa using htr
@@ -116,7 +119,7 @@ theorem C15_counter_amount (t : Txn) :
   · simp only [counterAmount]; cases t.transferredAmount <;> rfl
   · intro h
     simp only [counterAmount, h, Dec.toRat, true_and]
-    cases t.amount.value.neg <;> simp
+    cases hneg : t.amount.value.neg <;> simp
   · intro tr h
     simp [counterAmount, h]
 
@@ -130,8 +133,8 @@ theorem C15_rate_placement (t : Txn) (src : String) (tr : Transaction) (h : t.to
   intro p hp
   simp only at hp
   split at hp <;>
-  · simp only [List.mem_cons, List.mem_append, List.mem_map, List.mem_singleton, List.not_mem_nil, or_false] at hp
-    rcases hp with rfl | ⟨c, _, rfl⟩ | rfl <;> exact ⟨_, _, rfl⟩
+  · simp only [List.mem_cons, List.mem_append, List.mem_map, List.not_mem_nil, or_false] at hp
+    rcases hp with (rfl | ⟨c, _, rfl⟩) | rfl <;> exact ⟨_, _, rfl⟩
 
 /-! ## Numbers -/
 
@@ -139,8 +142,8 @@ theorem C15_rate_placement (t : Txn) (src : String) (tr : Transaction) (h : t.to
 scale (hence its value), and no format tag. -/
 theorem C15_value (d : Dec) :
     d.toPDec.neg = d.neg ∧ d.toPDec.mant = d.mant ∧ d.toPDec.scale = d.scale ∧ d.toPDec.fmt = none ∧
-    d.toPDec.toRat = d.toRat := by
-  simp [Dec.toPDec, Dec.toRat, PDec.toRat]
+    d.toPDec.toRat = d.toRat :=
+  ⟨rfl, rfl, rfl, rfl, rfl⟩
 
 private theorem mulLoop_spec (m : Nat) (diff : Nat) :
     ∃ k, k ≤ diff ∧ Literal.mulLoop m diff = (m * 10 ^ k, diff - k) ∧
@@ -152,9 +155,8 @@ private theorem mulLoop_spec (m : Nat) (diff : Nat) :
     by_cases h : m * 10 > Literal.maxMant
     · refine ⟨0, by omega, by simp [h], ?_⟩
       intro hle
-      have : m * 10 ≤ m * 10 ^ (n + 1) := by
-        rw [Nat.pow_succ, ← Nat.mul_assoc, Nat.mul_comm (m * 10 ^ n) 10, ← Nat.mul_assoc]
-        exact Nat.le_mul_of_pos_right _ (Nat.pow_pos (by omega))
+      have h10 : 10 ^ 1 ≤ 10 ^ (n + 1) := Nat.pow_le_pow_right (by omega) (by omega)
+      have : m * 10 ≤ m * 10 ^ (n + 1) := Nat.mul_le_mul_left m (by simpa using h10)
       omega
     · obtain ⟨k, hk, he, hfull⟩ := ih (m * 10)
       refine ⟨k + 1, by omega, ?_, ?_⟩
@@ -167,17 +169,20 @@ private theorem mulLoop_spec (m : Nat) (diff : Nat) :
           rwa [Nat.pow_succ, Nat.mul_comm (10 ^ n) 10, ← Nat.mul_assoc] at hle
         rw [hfull this]
 
+private theorem scaled_val (m s k : Nat) :
+    ((m * 10 ^ k : Nat) : Rat) / (10 : Rat) ^ (s + k) = (m : Rat) / (10 : Rat) ^ s := by
+  induction k with
+  | zero => simp
+  | succ k ih =>
+    have h1 : ((m * 10 ^ (k + 1) : Nat) : Rat) = ((m * 10 ^ k : Nat) : Rat) * 10 := by
+      rw [Nat.pow_succ, ← Nat.mul_assoc]
+      simp [Rat.natCast_mul]
+    rw [h1, ← Nat.add_assoc, Rat.pow_succ, ← ih]
+    grind
+
 private theorem scaled_toRat (neg : Bool) (m s k : Nat) (f : Option Fmt) :
     (PDec.mk neg (m * 10 ^ k) (s + k) f).toRat = (PDec.mk neg m s f).toRat := by
-  simp only [PDec.toRat]
-  have h10 : ((10 : Rat) ^ k) ≠ 0 := by
-    apply Rat.pow_ne_zero; decide
-  have : ((m * 10 ^ k : Nat) : Rat) / (10 : Rat) ^ (s + k) = (m : Rat) / (10 : Rat) ^ s := by
-    rw [Rat.pow_add, Nat.cast_mul, Nat.cast_pow]
-    simp only [Nat.cast_ofNat]
-    rw [Rat.div_def, Rat.div_def, Rat.inv_mul_rev, ← Rat.mul_assoc, Rat.mul_assoc (m : Rat), Rat.mul_inv_cancel _ h10,
-      Rat.mul_one]
-  rw [this]
+  simp only [PDec.toRat, scaled_val]
 
 /-- **The printer only pads**: the number printed for an amount (`display.rs::rescale`) has the same value,
 and (for scales within rust_decimal's 28) its scale is `max scale precision` whenever the padded mantissa still fits 96 bits (always the case for
@@ -195,7 +200,7 @@ theorem C15_rescale_value (prec : String → Nat) (v : PDec) (c : String) (hsc :
     have hlt : v.scale < max v.scale (prec c) := by omega
     by_cases h2 : v.mant = 0
     · simp only [h2, if_true]
-      refine ⟨by simp [PDec.toRat, h2], ?_, by simp⟩
+      refine ⟨by simp [PDec.toRat, h2, Rat.div_def], ?_, by simp⟩
       simp only [Literal.maxScale] at hsc ⊢
       omega
     · simp only [h2, if_false]
@@ -211,5 +216,137 @@ theorem C15_rescale_value (prec : String → Nat) (v : PDec) (c : String) (hsc :
       · intro _ hle
         rw [hs, hfull hle]
         omega
+
+/-! ## Text: the clean class -/
+
+private theorem cleanAmount_toPDec (a : OwnedAmount) (h : cleanAmount a = true) :
+    readableVExpr (.amt ⟨a.value.neg, a.value.mant, a.value.scale, none⟩ a.commodity) = true := by
+  simpa [cleanAmount, cleanDec, readableVExpr, readablePDec] using h
+
+private theorem get?_mem {κ ν : Type} [DecidableEq κ] (m : AMap κ ν) (k : κ) (v : ν) (h : AMap.get? m k = some v) :
+    ∃ k', (k', v) ∈ m := by
+  induction m with
+  | nil => simp [AMap.get?] at h
+  | cons hd tl ih =>
+    obtain ⟨a, b⟩ := hd
+    simp only [AMap.get?] at h
+    by_cases hk : a = k
+    · simp only [hk, if_true, Option.some.injEq] at h
+      exact ⟨a, by simp [h]⟩
+    · simp only [hk, if_false] at h
+      obtain ⟨k', hk'⟩ := ih h
+      exact ⟨k', by simp [hk']⟩
+
+private theorem readable_shown (t : Txn) (a : OwnedAmount) (ha : cleanAmount a = true)
+    (hr : t.rates.all (fun kv => cleanAmount kv.2) = true) :
+    readablePostingAmount (shownAmount t a) = true := by
+  simp only [readablePostingAmount, shownAmount, cleanAmount_toPDec a ha, Bool.true_and, Option.isNone_none,
+    Bool.and_true, rateFor]
+  cases hg : AMap.get? t.rates a.commodity with
+  | none => simp [readableCost]
+  | some x =>
+    obtain ⟨k', hk'⟩ := get?_mem _ _ _ hg
+    have := List.all_eq_true.mp hr _ hk'
+    simpa [readableCost, readableExchange] using cleanAmount_toPDec x this
+
+/-- **C15_partial.**  For a record inside `CleanText` every text field of the transaction built lies in the
+class the ledger syntax can carry at its place (`ReadableTree`): the payee holds no `;` / line break / outer
+blank and no leading `(` unless a code precedes it, the code no `)`, comments are single lines that do not
+look like tags, accounts survive `posting_account`, commodities survive `primitive::commodity`, charge
+payees are trimmed single lines, amounts are plain numbers in range. -/
+theorem C15_partial (t : Txn) (src : String) (tr : Transaction)
+    (hclean : CleanText t src = true) (h : t.toDoubleEntry src = .ok tr) : ReadableTree tr = true := by
+  rw [C15_tree t src] at h
+  simp only [Outcome.ok.injEq] at h
+  subst h
+  simp only [CleanText, Bool.and_eq_true] at hclean
+  obtain ⟨⟨⟨⟨⟨⟨⟨⟨⟨⟨⟨hd, he⟩, hp⟩, hc⟩, hcm⟩, hsrc⟩, hdst⟩, ham⟩, htr⟩, hbal⟩, hrates⟩, hch⟩ := hclean
+  have hcounter : cleanAmount (counterAmount t) = true := by
+    simp only [counterAmount]
+    cases htt : t.transferredAmount with
+    | none => simpa [cleanAmount, cleanDec] using ham
+    | some x => simp only [htt] at htr; simpa [cleanAmount, cleanDec] using htr
+  have hsrcP : readablePosting
+      { account := src, clear := .uncleared, amount := some (shownAmount t t.amount),
+        balance := t.balance.map (fun b => VExpr.amt ⟨b.value.neg, b.value.mant, b.value.scale, none⟩ b.commodity),
+        metadata := [] } = true := by
+    simp only [readablePosting, hsrc, Bool.true_and, readable_shown t _ ham hrates, List.all_nil, Bool.and_true]
+    cases hb : t.balance with
+    | none => rfl
+    | some b => simp only [hb] at hbal; simpa [readableBalance] using cleanAmount_toPDec b hbal
+  have hchP : ∀ c ∈ t.charges, readablePosting
+      { account := "Expenses:Commissions", clear := .uncleared, amount := some (shownAmount t c.amount),
+        balance := none, metadata := [Metadata.keyValue "Payee" (MetaValue.text c.payee)] } = true := by
+    intro c hc
+    have := List.all_eq_true.mp hch c hc
+    simp only [Bool.and_eq_true] at this
+    have hacc : cleanAccount "Expenses:Commissions" = true := by decide
+    simp [readablePosting, hacc, readable_shown t _ this.2 hrates, readableMetadata, this.1, readableBalance]
+  have hdestP : ∀ fb, cleanAccount fb = true → readablePosting
+      { account := t.destAccount.getD fb,
+        clear := t.clearState.getD (if t.destAccount.isSome then .uncleared else .pending),
+        amount := some (shownAmount t (counterAmount t)), balance := none, metadata := [] } = true := by
+    intro fb hfb
+    have hacc : cleanAccount (t.destAccount.getD fb) = true := by
+      cases hda : t.destAccount with
+      | none => simpa using hfb
+      | some a => simp only [hda] at hdst; simpa using hdst
+    simp [readablePosting, hacc, readable_shown t _ hcounter hrates, readableBalance]
+  have hmeta : (t.comments.map Metadata.comment).all readableMetadata = true := by
+    rw [List.all_map]
+    exact hcm
+  simp only [ReadableTree, hd, he, hp, hc, hmeta, Bool.true_and]
+  cases t.amount.value.neg with
+  | false =>
+    simp only [Bool.false_eq_true, if_false, List.all_cons, List.all_append, List.all_nil, Bool.and_true, hsrcP,
+      hdestP "Income:Unknown" (by decide), Bool.true_and, List.all_map]
+    exact List.all_eq_true.mpr (fun c hc => hchP c hc)
+  | true =>
+    simp only [if_true, List.all_cons, List.all_append, List.all_nil, Bool.and_true, hsrcP,
+      hdestP "Expenses:Unknown" (by decide), Bool.true_and, List.all_map]
+    exact List.all_eq_true.mpr (fun c hc => hchP c hc)
+
+/-- **Kept visible, FALSE on the current code** — the property as stated ("whatever the statement file
+contains"): every record yields a tree whose text the ledger syntax can carry. -/
+def C15_full : Prop :=
+  ∀ (t : Txn) (src : String) (tr : Transaction), t.toDoubleEntry src = .ok tr → ReadableTree tr = true
+
+/-- the three F15 witnesses as records: payee `shop ; evil`; a note holding a line break followed by a
+posting line; payee `(abc) def` -/
+def f15Witnesses : List Txn :=
+  [ Txn.new ⟨2024, 1, 5⟩ "shop ; evil" ⟨⟨true, 1250, 2⟩, "CHF"⟩,
+    (Txn.new ⟨2024, 1, 5⟩ "shop" ⟨⟨true, 1250, 2⟩, "CHF"⟩).addComment "first line\n    Assets:Hidden  1000000 CHF",
+    Txn.new ⟨2024, 1, 5⟩ "(abc) def" ⟨⟨true, 1250, 2⟩, "CHF"⟩ ]
+
+/-- F15: none of the three witnesses yields a tree inside the class (each is printed verbatim by
+`to_double_entry` + `Display`; the replay on the real importer, printer and parser runs on every check). -/
+theorem C15_full_false : ¬ C15_full ∧
+    ∀ t ∈ f15Witnesses, (t.toDoubleEntry "Assets:Bank").map' ReadableTree = .ok false := by
+  have hw : ∀ t ∈ f15Witnesses, (t.toDoubleEntry "Assets:Bank").map' ReadableTree = .ok false := by
+    decide
+  refine ⟨?_, hw⟩
+  intro hfull
+  have h0 := hw _ (List.mem_cons_self)
+  obtain ⟨tr, h1⟩ := C15_never_err (f15Witnesses.head (by decide)) "Assets:Bank"
+  have h2 := hfull _ _ _ h1
+  simp only [f15Witnesses, List.head_cons] at h1
+  simp [h1, Outcome.map', h2] at h0
+
+-- non-vacuity of C15_partial: a clean record with code, comment, charge, rate and transferred amount
+def exCleanTxn : Txn :=
+  { date := ⟨2024, 2, 29⟩, effectiveDate := some ⟨2024, 3, 1⟩, code := some "1234", payee := "Migros (Zürich) *",
+    comments := ["ref 42"], destAccount := some "Expenses:Food & Drink", amount := ⟨⟨true, 1250, 2⟩, "CHF"⟩,
+    transferredAmount := some ⟨⟨false, 1150, 2⟩, "EUR"⟩, rates := [("EUR", ⟨⟨false, 1087, 3⟩, "CHF"⟩)],
+    balance := some ⟨⟨false, 100000, 2⟩, "CHF"⟩, charges := [⟨"Bank (fee)", ⟨⟨false, 50, 2⟩, "CHF"⟩⟩] }
+
+example : CleanText exCleanTxn "Assets:Bank" = true := by decide
+example : (exCleanTxn.toDoubleEntry "Assets:Bank").map' (fun tr => (tr.posts.map (·.account), ReadableTree tr))
+    = .ok (["Expenses:Food & Drink", "Expenses:Commissions", "Assets:Bank"], true) := by decide
+-- C15_counter_amount / C15_rate_placement on it: the counter-posting is `11.50 EUR @ 1.087 CHF`
+example : (exCleanTxn.toDoubleEntry "Assets:Bank").map' (fun tr => tr.posts.head?.map (fun p => p.amount ==
+      some { amount := .amt ⟨false, 1150, 2, none⟩ "EUR", cost := some (.rate (.amt ⟨false, 1087, 3, none⟩ "CHF")), lot := {} }))
+    = .ok (some true) := by decide
+-- C15_rescale_value: 12.5 CHF printed at precision 2 is 12.50 (same value, scale 2)
+example : Literal.displayRescale (fun _ => 2) ⟨false, 125, 1, none⟩ "CHF" = ⟨false, 1250, 2, none⟩ := by decide
 
 end Okane.Import
